@@ -104,6 +104,19 @@ fn scenarios(seed: u64, tier: Tier) -> Vec<Scenario> {
             seed: simcore::prng::hash_label(seed, "c09-scenario-hardlink", k),
         });
         k += 1;
+        // the destination is a symbolic link to the previous container (`current.jbk -> store/v1.jbk`)
+        out.push(Scenario {
+            id: format!("{}-none-n1-old-symlinked", packaging.name()),
+            packaging,
+            comp: Comp::None,
+            n: 1,
+            preexisting: true,
+            sim_source: false,
+            extra: false,
+            old_packaging: None,
+            seed: simcore::prng::hash_label(seed, "c09-scenario-symlink", k),
+        });
+        k += 1;
         // input-stream faults
         out.push(Scenario {
             id: format!("{}-simsrc", packaging.name()),
@@ -634,7 +647,21 @@ fn injections(s: &Scenario, r: &Reference, tier: Tier) -> Vec<Inject> {
         if kind == "write" {
             // every byte offset of every write is a crash point (the hard-link scenarios, which
             // repeat a scenario that is enumerated in full, take one offset per write)
-            let offsets: Vec<usize> = if s.id.contains("hardlinked") { vec![(*len).max(1) / 2 + 1] } else { (1..=*len).collect() };
+            let offsets: Vec<usize> = if s.id.contains("hardlinked") || s.id.contains("symlinked") {
+                vec![(*len).max(1) / 2 + 1]
+            } else if tier == Tier::Quick && *len > 48 && (s.preexisting || s.n > 1) {
+                // quick tier: the smallest fresh scenarios are enumerated byte by byte, the others
+                // take the ends of each long write and a seeded sample of its middle
+                let mut v: Vec<usize> = (1..=6).chain(*len - 5..=*len).collect();
+                for _ in 0..14 {
+                    v.push(rng.range(7, *len as u64 - 6) as usize);
+                }
+                v.sort();
+                v.dedup();
+                v
+            } else {
+                (1..=*len).collect()
+            };
             for b in offsets.into_iter().filter(|b| *b <= *len) {
                 out.push(Inject::Io {
                     k,
@@ -680,7 +707,7 @@ fn injections(s: &Scenario, r: &Reference, tier: Tier) -> Vec<Inject> {
     }
     // hook-free cross-check: the kernel's file size limit as fault source, every limit up to the
     // largest output file (strided in the quick tier), killing and failing variants
-    if (!s.preexisting || s.id.contains("hardlinked")) && !s.sim_source {
+    if (!s.preexisting || s.id.contains("hardlinked") || s.id.contains("symlinked")) && !s.sim_source {
         let largest = r.files.iter().map(|(_, b)| b.len() as u64).max().unwrap_or(0);
         let stride = if tier == Tier::Quick { 13 } else { 1 };
         let mut l = 0;
@@ -922,6 +949,11 @@ pub fn worker_main(args: &Args, w: usize, n: usize) -> ! {
                 if s.id.contains("hardlinked") {
                     let _ = std::fs::hard_link(case_dir.join(format!("{NAME}.jbk")), case_dir.join(format!("{NAME}.jbk.other-name")));
                 }
+                if s.id.contains("symlinked") {
+                    let stored = case_dir.join(format!("stored-{NAME}.jbk"));
+                    let _ = std::fs::rename(case_dir.join(format!("{NAME}.jbk")), &stored);
+                    let _ = std::os::unix::fs::symlink(format!("stored-{NAME}.jbk"), case_dir.join(format!("{NAME}.jbk")));
+                }
             }
             let status = run_child(&sc_file, &case_dir, inject, false, 20_000);
             if matches!(inject, Inject::ReadOnlyDir | Inject::ReadOnlyDirIo { .. }) {
@@ -1139,6 +1171,11 @@ pub fn replay_main(args: &Args, file: &str) -> ! {
         }
         if s.id.contains("hardlinked") {
             let _ = std::fs::hard_link(case_dir.join(format!("{NAME}.jbk")), case_dir.join(format!("{NAME}.jbk.other-name")));
+        }
+        if s.id.contains("symlinked") {
+            let stored = case_dir.join(format!("stored-{NAME}.jbk"));
+            let _ = std::fs::rename(case_dir.join(format!("{NAME}.jbk")), &stored);
+            let _ = std::os::unix::fs::symlink(format!("stored-{NAME}.jbk"), case_dir.join(format!("{NAME}.jbk")));
         }
     }
     let status = run_child(&sc_file, &case_dir, &inject, false, 20_000);
